@@ -49,8 +49,9 @@ CLAIMED = {
             "distinct ones distinct values unused by fixed qubits/labels, custom resolver values win, nothing else changes.", TRUST, "5/C34"),
     "C35": ("Programs with two frame / waveform / extern definitions (keys solver-chosen, may coincide), a declaration, a DEFGATE, a DEFCIRCUIT, at most one calibration (4 shapes) "
             "and a body of <= N instructions (quick 2, thorough 3): the real simplify::<DefaultHandler>: body equals the real expansion's, no calibrations, exactly the used "
-            "frames / invoked waveforms / called externs kept, other definitions unchanged. The clause on computed schedules is not covered.",
-            TRUST + "; schedule clause outside the claim", "5/C35"),
+            "frames / invoked waveforms / called externs kept, other definitions unchanged. Schedule clause: on the sub-space of bodies with known durations (gate, template pulse, "
+            "FENCE, DELAY, SET-PHASE, RESET q; calibration none or FENCE) the real BasicBlock::as_schedule_seconds of the simplified and of the expanded program are equal.",
+            TRUST + "; in the schedule sub-space ExternSignature::from_str and validate_user_identifier are table stubs (they go through the lexer)", "5/C35"),
     "C20": ("Programs of <= K gate definitions (quick 2, thorough 3; sequence definitions of one or two elements on one or two qubits with / without a parameter, a DAGGER element, "
             "a matrix definition) whose names and element names the solver chooses from {A,B,C} (nesting, self-reference, cycles, redefinition, arity mismatch), <= N body "
             "instructions (quick 1, thorough 2) and every filter over the names: both entry points against a reference expander; errors exactly for cycles / arity / modifier / "
